@@ -1,5 +1,6 @@
 import LyModel.Lyb.ChunkWriter2
 import LyModel.Lyb.ChunkReader2
+import LyModel.Lyb.HashLemmas5
 /-!
 # C01 (LYB part) — property theorems
 
@@ -8,7 +9,7 @@ Printing a data tree as LYB and parsing it back is the identity: the parts decid
 `LyModel/Lyb/*.lean`, helper lemmas in `LyModel/Lyb/Chunk*.lean`, `Hash*.lean`.
 -/
 namespace LyModel.Props.C01Lyb
-open LyModel LyModel.Lyb
+open LyModel LyModel.Lyb LyModel.Generated
 
 /-- the constants of this source tree (lyb.h via `Generated/Consts.lean`) satisfy the side conditions -/
 theorem params_gen_ok : Params.gen.Ok :=
@@ -49,5 +50,77 @@ example : exP.Ok ∧ WellNested exOps ∧ writeAll exP exOps =
     some [3, 1, 1, 2, 3, 0, 3, 3, 1, 4, 5, 3, 1, 6, 3, 3, 3, 0, 7, 8, 3, 1, 9, 3, 0, 3, 2, 10, 11, 3, 1, 12, 1, 0, 2, 1,
           13, 14, 0, 0, 0] :=
   ⟨⟨by decide, ⟨2, by decide, by decide⟩, ⟨8, by decide, by decide⟩⟩, by decide, by decide⟩
+
+/-! ## schema hashes -/
+
+/-- **Hash lookup.**  For every number of siblings and EVERY hash assignment of the collision shape (`Shape`: the byte
+of collision id `i` has `0x80 >> i` as its highest set bit — all collision patterns are covered, not a corpus of
+them): if `lyb_hash_siblings` succeeds, then for each sibling `k` the hash sequence `lyb_print_schema_hash` emits is
+read back by `lyb_read_hashes` completely (the rest of the input is untouched) and the first-match scan of
+`lyb_parse_schema_hash` over the siblings in `lys_getnext` order stops at `k` — no earlier sibling matches. -/
+theorem lyb_hash_lookup_correct (h : Nat → Nat → Nat) (sh : Shape h) (n : Nat) (ht : HT)
+    (hs : hashSiblings h n = some ht) (k : Nat) (hk : k < n) :
+    ∃ seq, printSeq h ht k = some seq ∧
+      ∀ rest, parseSchemaHash h n (seq ++ rest) = some (some k, rest) := by
+  have inv : TInv h ht n := by
+    have := tinv_run sh n 0 [] ht (tinv_nil h) hs
+    simpa using this
+  obtain ⟨ck, hck, hmem, huniq⟩ := tinv_record inv hk
+  refine ⟨seqOf h k ck, printSeq_spec sh hck hmem huniq, ?_⟩
+  intro rest
+  have hmatch : hashMatch h k ((List.range (ck + 1)).map fun j => h k j) = true :=
+    (hashMatch_iff h k k ck).mpr (fun _ _ => rfl)
+  have hfind := findSibling_spec h _ k hmatch n 0 (Nat.zero_le _) (by omega) (by
+    intro m _ hmk
+    obtain ⟨cm, hcm, hmemm, _⟩ := tinv_record inv (show m < n by omega)
+    have := tinv_first_match inv hmem hmemm hck hcm hmk
+    cases hc : hashMatch h m ((List.range (ck + 1)).map fun j => h k j)
+    · rfl
+    · exact absurd ((hashMatch_iff h m k ck).mp hc) this)
+  have hhead : ((List.range (ck + 1)).map fun j => h k j).head? ≠ some 0 := by
+    rw [List.range_succ_eq_map]
+    simp only [List.map_cons, List.head?_cons, ne_eq, Option.some.injEq]
+    exact (sh k 0 (by decide)).1
+  simp only [parseSchemaHash, readHashes_seqOf sh hck rest, hhead, ↓reduceIte, hfind]
+
+/-- the same for the real hash function `lyb_generate_hash` (exact Jenkins model) of any module / sibling names -/
+theorem lyb_hash_lookup_correct_real (modName : Bytes) (names : List Bytes) (ht : HT)
+    (hs : hashSiblings (realHash modName names) names.length = some ht) (k : Nat) (hk : k < names.length) :
+    ∃ seq, printSeq (realHash modName names) ht k = some seq ∧
+      ∀ rest, parseSchemaHash (realHash modName names) names.length (seq ++ rest) = some (some k, rest) :=
+  lyb_hash_lookup_correct _ (realHash_shape modName names) _ ht hs k hk
+
+/-- non-vacuity: module `mod`, siblings `a q gu gx`: `a`/`q` collide on collision id 0, `gu`/`gx` on ids 0 and 1, so
+`q` is printed as a two-byte and `gx` as a three-byte sequence -/
+def exHash : Nat → Nat → Nat := realHash [109, 111, 100] [[97], [113], [103, 117], [103, 120]]
+
+set_option maxRecDepth 100000 in
+example : hashSiblings exHash 4 = some [(0, 177), (1, 121), (2, 203), (3, 33)]
+    ∧ printSeq exHash [(0, 177), (1, 121), (2, 203), (3, 33)] 1 = some [121, 177]
+    ∧ printSeq exHash [(0, 177), (1, 121), (2, 203), (3, 33)] 3 = some [33, 85, 203] :=
+  ⟨by decide, by decide, by decide⟩
+
+/-- `lyb_hash_siblings_total` — "the assignment succeeds for every set of fewer than 256 distinct siblings" — is
+**false** (finding F27): with the one-character module name `y` the siblings `en` and `d64` have the same hash for
+every collision id (for ids ≥ 1 the same bytes are hashed, only more bits are masked away), `lyb_hash_siblings`
+reaches its `/* wow */` branch and valid data cannot be printed.  Decided with the exact Jenkins model. -/
+theorem lyb_hash_siblings_total_fails :
+    ¬ ∀ (modName : Bytes) (names : List Bytes), modName ≠ [] → names.Nodup → names.length < 256 →
+        (hashSiblings (realHash modName names) names.length).isSome = true := by
+  intro H
+  have := H [121] [[101, 110], [100, 54, 52]] (by decide) (by decide) (by decide)
+  revert this
+  set_option maxRecDepth 100000 in decide
+
+/-- the true part: the assignment fails only on a *total* collision — if every two siblings differ in at least one of
+the `LYB_HASH_BITS` hashes, `lyb_hash_siblings` succeeds (any number of siblings, any assignment of the shape) -/
+theorem lyb_hash_siblings_total_partial (h : Nat → Nat → Nat) (sh : Shape h) (n : Nat)
+    (hd : ∀ p s, p < s → s < n → ∃ j, j < LYB_HASH_BITS ∧ h p j ≠ h s j) :
+    (hashSiblings h n).isSome = true :=
+  hashSiblingsFrom_some sh n hd n 0 [] (tinv_nil h) (by omega)
+
+set_option maxRecDepth 100000 in
+/-- non-vacuity of the hypothesis: the four siblings above differ pairwise -/
+example : ∀ s, s < 4 → ∀ p, p < s → ∃ j, j < LYB_HASH_BITS ∧ exHash p j ≠ exHash s j := by decide
 
 end LyModel.Props.C01Lyb
